@@ -224,11 +224,8 @@ def rule_nav_form(ctx: RuleContext, ts: TS, rid: str) -> None:
 
 # ====================================================================== POS-FORM (C08)
 def rule_pos_form(ctx: RuleContext, ts: TS, rid: str) -> None:
-    ctx.rule(rid, 'position bookkeeping has the required arithmetic form: _token_size = (count of "\\n", characters after the last "\\n"); '
-                  'Position += adds lines and restarts the column after a newline; rebuild/from_tokens/extend accumulate every token and '
-                  'record the last token containing a newline; update() adjusts the line count by new-old, leaves the column alone for a '
-                  'token before the last newline, and otherwise recomputes the column from the (new) last newline; the in-place splice '
-                  'branch shifts last_newline_index by inserted-removed and the line count by inserted-removed lines')
+    ctx.rule(rid, '_token_size = (count of "\\n", characters after the last "\\n") in linear normal form (the size every other position '
+                  'computation starts from; the computations themselves are evaluated by POS-SEM)')
     m = ts.m
     f = ts._need('_token_size')
     arg = f.params[0]
@@ -241,103 +238,8 @@ def rule_pos_form(ctx: RuleContext, ts: TS, rid: str) -> None:
         ok = 'line' in kw and 'column' in kw and norm(kw['line']) == f"{arg}.count('\\n')" \
             and linear.linear(kw['column']) == _want(f"len({arg}) - {arg}.rfind('\\n') - 1")
     ctx.check(ok, rid, 'token_store:_token_size', norm(r[0])[:100] if r else '', '_token_size is not (count of newlines, len - rfind(newline) - 1)', f.where)
-    f = ts._need('Position.__iadd__')
-    o = f.params[1]
-    augs = {norm(a.target): (type(a.op).__name__, norm(a.value)) for a in walk_no_nested(f.node) if isinstance(a, ast.AugAssign)}
-    asg = {norm(a.targets[0]): norm(a.value) for a in walk_no_nested(f.node) if isinstance(a, ast.Assign)}
-    br = [i for i in walk_no_nested(f.node) if isinstance(i, ast.If) and norm(i.test) == f'{o}.line']
-    ok = augs.get('self.line') == ('Add', f'{o}.line') and len(br) == 1 and [norm(s) for s in br[0].body] == [f'self.column = {o}.column'] \
-        and [norm(s) for s in br[0].orelse] == [f'self.column += {o}.column']
-    ctx.check(ok, rid, 'token_store:Position.__iadd__', f'{augs} {asg}', 'Position += is not: line += other.line; column = other.column if other.line else '
-              'column + other.column', f.where)
-    # accumulation loops
-    for q in ('_StoreBlock.from_tokens', '_StoreBlock.rebuild', '_StoreBlock.extend'):
-        f = ts._need(q)
-        loops = [l for l in walk_no_nested(f.node) if isinstance(l, ast.For)]
-        ok = False
-        if len(loops) == 1:
-            l = loops[0]
-            body = [norm(s) for s in l.body]
-            idx = norm(l.target.elts[0]) if isinstance(l.target, ast.Tuple) else norm(l.target)
-            tok = norm(l.target.elts[1]) if isinstance(l.target, ast.Tuple) else None
-            if tok is None:
-                a0 = l.body[0]
-                tok = norm(a0.targets[0]) if isinstance(a0, ast.Assign) else None
-            adds = [s for s in l.body if isinstance(s, ast.AugAssign) and isinstance(s.op, ast.Add) and norm(s.value) == f'{tok}.size']
-            nl = [s for s in l.body if isinstance(s, ast.If) and norm(s.test) == f'{tok}.size.line' and len(s.body) == 1
-                  and isinstance(s.body[0], ast.Assign) and norm(s.body[0].value) == idx and 'last_newline_index' in norm(s.body[0].targets[0])]
-            ok = len(adds) == 1 and len(nl) == 1 and not any(isinstance(x, (ast.Break, ast.Continue)) for x in ast.walk(l))
-            full = norm(l.iter) in ('enumerate(tokens)', 'enumerate(self.tokens)') or (q.endswith('extend') and norm(l.iter) == 'range(start, len(self.tokens))')
-            ok = ok and full
-        ctx.check(ok, rid, f'token_store:{q}', 'size += token.size; last_newline_index = i if token has a newline',
-                  f'{q} does not accumulate every token\'s size and record the last token with a newline', f.where)
-    # update()
-    f = ts._need('TokenStore.update')
-    hs = _handles(f)
-    h = next(iter(hs), 'handle')
-    tokp, sizep = f.params[1], f.params[3]
-    body = stmts_no_doc(f.node.body)
-    problems: list[str] = []
-    first_aug = [s for s in body if isinstance(s, ast.AugAssign)]
-    if not (first_aug and norm(first_aug[0].target) == f'{h}.block.size.line' and isinstance(first_aug[0].op, ast.Add)
-            and linear.linear(first_aug[0].value) == _want(f'{sizep}.line - {tokp}.size.line') and body.index(first_aug[0]) <= 1):
-        problems.append('line count is not adjusted by (new lines - old lines) first')
-    early = [s for s in body if isinstance(s, ast.If) and len(s.body) == 1 and isinstance(s.body[0], ast.Return)]
-    if not (len(early) == 1 and _same_cmp(norm(early[0].test), f'{h}.index < {h}.block.last_newline_index')):
-        problems.append('early return is not `token index < last_newline_index` (a token at or after the last newline changes the column)')
-    chain = [s for s in body if isinstance(s, ast.If) and s not in early]
-    if len(chain) != 1:
-        problems.append('three-way case analysis not found')
-    else:
-        c1 = chain[0]
-        t1 = norm(c1.test)
-        c2 = c1.orelse[0] if len(c1.orelse) == 1 and isinstance(c1.orelse[0], ast.If) else None
-        if t1 != f'{sizep}.line and (not {tokp}.size.line)':
-            problems.append(f'first case is `{t1}`, expected new text has a newline and old text has none')
-        else:
-            asg = {norm(a.targets[0]): a.value for a in c1.body if isinstance(a, ast.Assign)}
-            if norm(asg.get(f'{h}.block.last_newline_index')) != f'{h}.index':
-                problems.append('creating a newline does not make this token the last newline')
-            lp = [l for l in c1.body if isinstance(l, ast.For)]
-            if not (len(lp) == 1 and norm(lp[0].iter) == f'range({h}.index + 1, len({h}.block.tokens))'
-                    and norm(lp[0].body[0]) == f'col += {h}.block.tokens[{norm(lp[0].target)}].size.column' and norm(asg.get('col')) == f'{sizep}.column'
-                    and norm(asg.get(f'{h}.block.size.column')) == 'col'):
-                problems.append('new column after creating a newline is not new.column + columns of the tokens after it')
-        if c2 is None or norm(c2.test) != f'{tokp}.size.line and (not {sizep}.line)':
-            problems.append('second case is not: old text had a newline and the new text has none')
-        else:
-            asg2 = [a for a in c2.body if isinstance(a, ast.Assign) and norm(a.targets[0]) == 'col']
-            if not (asg2 and linear.linear(asg2[0].value) == _want(f'{h}.block.size.column + {sizep}.column - {tokp}.size.column')):
-                problems.append('removing a newline: column does not start from old column + new.column - old.column')
-            lp = [l for l in c2.body if isinstance(l, ast.For)]
-            if not (len(lp) == 1 and norm(lp[0].iter) == f'range({h}.index - 1, -1, -1)' and lp[0].orelse
-                    and norm(lp[0].orelse[0]) == f'{h}.block.last_newline_index = -1'):
-                problems.append('removing a newline: backward scan to the previous newline (or -1) not found')
-            else:
-                i = norm(lp[0].target)
-                b = [norm(s) for s in lp[0].body]
-                if b[0] != f'col += {h}.block.tokens[{i}].size.column' or not any(
-                        isinstance(s, ast.If) and norm(s.test) == f'{h}.block.tokens[{i}].size.line' and
-                        [norm(x) for x in s.body] == [f'{h}.block.last_newline_index = {i}', 'break'] for s in lp[0].body):
-                    problems.append('removing a newline: scan does not add each column and stop at the previous newline token')
-            last = c2.orelse
-            if not (len(last) == 1 and isinstance(last[0], ast.AugAssign) and norm(last[0].target) == f'{h}.block.size.column'
-                    and linear.linear(last[0].value) == _want(f'{sizep}.column - {tokp}.size.column')):
-                problems.append('same newline status: column is not adjusted by new.column - old.column')
-    ctx.check(not problems, rid, 'token_store:TokenStore.update', '; '.join(problems) or 'ok', '; '.join(problems), f.where,
-              note='line delta; early return; create / remove / keep newline cases')
-    # fast path of _splice
-    f = ts._need('TokenStore._splice')
-    txt = {norm(a.target): (type(a.op).__name__, a.value) for a in walk_no_nested(f.node) if isinstance(a, ast.AugAssign)}
-    p1 = txt.get('block.last_newline_index')
-    ok = p1 is not None and p1[0] == 'Add' and linear.linear(p1[1]) == _want(f'len({f.params[1]}) - len_removed')
-    p2 = txt.get('block.size.line')
-    ok = ok and p2 is not None and p2[0] == 'Add' and norm(p2[1]) == 'lines_diff'
-    ld = [a for a in walk_no_nested(f.node) if isinstance(a, ast.AugAssign) and norm(a.target) == 'lines_diff']
-    kinds = sorted((type(a.op).__name__, 'removed' if 'block.tokens[j]' in norm(a.value) else 'inserted') for a in ld)
-    ok = ok and kinds == [('Add', 'inserted'), ('Sub', 'removed')] and all(norm(a.value).endswith('.size.line') for a in ld)
-    ctx.check(ok, rid, 'token_store:TokenStore._splice: in-place caches', f'{kinds}', 'the in-place branch does not shift last_newline_index by inserted - removed '
-              'tokens and the line count by inserted - removed lines', f.where, note='last_newline_index += len(tokens) - len_removed; size.line += lines_diff')
+    # Position.__iadd__, the accumulation loops of from_tokens/rebuild/extend, update() and the in-place branch of _splice used to be
+    # matched textually here; POS-SEM (possem.py) now evaluates them over abstract tokens, which also accepts correct rewrites.
 
 
 # ====================================================================== BUILD-PART (C07)
